@@ -97,7 +97,11 @@ func buildView(h *Hist, evs []Ev) *view {
 		case "mark":
 			v.marks[e.Op] = e.Seq
 			if strings.HasPrefix(e.Op, "structure:") {
-				v.structure = append(v.structure, finding{"C07:structure:list-membership:" + strings.TrimPrefix(e.Op, "structure:"),
+				sig := "C07:structure:list-membership:" + strings.TrimPrefix(e.Op, "structure:")
+				if e.Op == "structure:schedule-order" {
+					sig = "C07:structure:schedule-order"
+				}
+				v.structure = append(v.structure, finding{sig,
 					"at an idle point (no call in flight, nothing executing, all task states and list lengths identical in three readings separated by two passes of a sentinel task through the queue, no event in between) " + e.C})
 			}
 		case "call":
@@ -486,6 +490,93 @@ func (v *view) overdueLegit(tv *taskView, r runRec) bool {
 	return false
 }
 
+// schedStartUnexplained reports whether a start by the schedule handler provably had no
+// queue submission behind it: the schedule handler starts a task itself only if the task
+// is marked overtime, and that mark is set only by a queue submission (Queue /
+// QueuePrioritized / StartASAP incl. the handler's own promotion of a due scheduled task
+// and the re-submission after an execution) and cleared by every start. The start is
+// unexplained if
+//   - every queue submission of the task returned before the prerun event of an earlier
+//     start (so that start or an earlier one consumed it),
+//   - no submission at all overlaps the executing window of an earlier execution (then
+//     nothing can have been dropped and re-submitted): the window of execution j is
+//     bounded by its prerun event and the cleared event of the next queue start, which
+//     the queue handler reaches only after execution j released the slot; needs j
+//     started by the queue handler, not cancelled, shorter than the wait limit,
+//   - exactly one Schedule is pending (a second one could override the time of a
+//     promoted, hence overtime, entry) and its promotion cannot be overdue yet
+//     (begin earlier than its time plus the smallest max delay).
+//
+// Such a task came due as a merely scheduled task: it has to be queued and its start
+// must respect the queue's serialisation.
+func (v *view) schedStartUnexplained(tv *taskView, b int) bool {
+	if len(tv.cancels) > 0 {
+		return false
+	}
+	r := tv.runs[b]
+	ref := r.ref()
+	var qcl []uint64
+	for _, s := range v.starts {
+		if s.by == "queue" {
+			qcl = append(qcl, s.cleared)
+		}
+	}
+	consumed := func(s sub) bool {
+		for j := 0; j < b; j++ {
+			if p := tv.runs[j].prerun; p != 0 && s.ret < p {
+				return true
+			}
+		}
+		return false
+	}
+	for j := 0; j < b; j++ {
+		rj := tv.runs[j]
+		if rj.prerun == 0 || rj.by != "queue" || rj.end == 0 || rj.endT-rj.clearedT >= execWaitNs {
+			return false
+		}
+		ub := inf
+		for _, c := range qcl {
+			if c > rj.cleared && c < ub {
+				ub = c
+			}
+		}
+		if ub == inf || ub >= ref {
+			return false
+		}
+		for _, s := range tv.subs {
+			if s.ret > rj.prerun && s.call < ub {
+				return false
+			}
+		}
+	}
+	minDelay := int64(60 * time.Second)
+	for _, m := range tv.maxd {
+		if m.call < ref && m.d < minDelay {
+			minDelay = m.d // (0 = no max delay entry at all: then be conservative as well)
+		}
+	}
+	pending := 0
+	for _, s := range tv.subs {
+		if s.call >= ref {
+			continue
+		}
+		if !s.sched() {
+			if !consumed(s) {
+				return false
+			}
+			continue
+		}
+		if consumed(s) {
+			continue
+		}
+		pending++
+		if r.beginT >= s.at+minDelay {
+			return false
+		}
+	}
+	return pending == 1
+}
+
 func (v *view) checkT5a() (out []finding, pairs int) {
 	var prev *startRec
 	for i := range v.starts {
@@ -493,8 +584,11 @@ func (v *view) checkT5a() (out []finding, pairs int) {
 		tv := v.tasks[s.task]
 		r := tv.runs[s.run]
 		queueLike := s.by == "queue"
+		unexplained := false
 		if s.by == "sched" && !v.overdueLegit(tv, r) {
 			queueLike = true
+		} else if s.by == "sched" && v.schedStartUnexplained(tv, s.run) {
+			queueLike, unexplained = true, true
 		}
 		if !queueLike {
 			continue
@@ -510,6 +604,9 @@ func (v *view) checkT5a() (out []finding, pairs int) {
 				kind := "queue-start"
 				if s.by == "sched" {
 					kind = "overdue-start-before-maxdelay"
+				}
+				if unexplained {
+					kind = "scheduled-task-started-beside-queue"
 				}
 				out = append(out, finding{"C07:not-serialised:" + kind,
 					fmt.Sprintf("task t%d execution #%d was started by the %s handler (cleared seq %d, %.3fms) while the previous queue-started execution (t%d #%d, cleared seq %d, %.3fms) had not returned, was not cancelled and had not exceeded the execution-wait limit",
